@@ -16,18 +16,18 @@ TRUSTED = (
 
 CLAIMS = {
     "C01": dict(
-        technique="static analysis: who-may-write (encapsulation) check over the resolved program + paired-update obligation walk over every path of every writer method",
-        text="Decides the inductive step of the incidence invariant by static analysis: only methods of the core classes write the four tables (R-ENC), and on every normal and exceptional exit of every writer method of Hypergraph each edge-side gain/loss is paired with the node-side one, each new key has its attribute record, every member is a registered node, and a store never replaces an entry whose key may already exist (three-valued key presence) (R-ATTR/R-INC/R-EXISTS/R-EXIT/R-EXC/R-ONCE); the per-site counter rules of C04 are checked for this class as the premise that automatic keys are new. Which edit is performed is not decided (C05).",
+        technique="static analysis: who-may-write (encapsulation) check over the resolved program + paired-update obligation walk (relational deltas with accumulator summaries, exceptional exits per iteration, finally blocks) over every path of every writer method",
+        text="Decides the inductive step of the incidence invariant by static analysis: only methods of the core classes write the four tables (R-ENC), and on every normal and exceptional exit of every writer method of Hypergraph each edge-side gain/loss is paired with the node-side one, each new key has its attribute record, every member is a registered node, and a store never replaces an entry whose key may already exist (three-valued key presence) (R-ATTR/R-INC/R-EXISTS/R-EXIT/R-EXC/R-ONCE); in-place set operators on stored member sets, sets accumulated over loop iterations, finally blocks and exceptions between iterations are modelled; the per-site counter rules of C04 are checked for this class as the premise that automatic keys are new. Which edit is performed is not decided (C05).",
         ref="3 C01",
     ),
     "C02": dict(
         technique="static analysis: paired-update obligation walk with tail/head <-> out/in side pairing over every path of every DiHypergraph writer",
-        text="Same inductive argument as C01 for DiHypergraph with sides: edge 'in' (tail) pairs with node 'out', edge 'out' (head) with node 'in'; every writer method is checked on all normal and exceptional exits, including strong node removal.",
+        text="Same inductive argument as C01 for DiHypergraph with sides: edge 'in' (tail) pairs with node 'out', edge 'out' (head) with node 'in'; every writer method is checked on all normal and exceptional exits (including an exception in a later iteration of a loop whose effects are only settled after it), including strong node removal; in/out literals chosen per branch are followed by tail duplication.",
         ref="3 C02",
     ),
     "C03": dict(
         technique="static analysis: guard-dominance and must-pass-through queries on the CFG of every simplex insertion/removal site",
-        text="Decides that every insertion of a simplex is dominated by the duplicate, emptiness and existing-ID guards, is followed on every path by scheduling of all its faces through guarded face insertion, is bounded by max_order, stores frozensets, and that removal removes all strict supersets first. Value-level facts about which faces exist are not decided.",
+        text="Decides that every insertion of a simplex is dominated by the duplicate, emptiness and existing-ID guards, is followed on every path by scheduling of all its faces through guarded face insertion, is bounded by max_order (which is compared with None, never tested for truthiness: 0 is a limit), stores frozensets, and that removal removes all strict supersets first. Value-level facts about which faces exist are not decided.",
         ref="3 C03",
     ),
     "C04": dict(
@@ -57,32 +57,32 @@ CLAIMS = {
     ),
     "C09": dict(
         technique="static analysis: ID/position kind inference (abstract interpretation) over every subscript of the algorithm, linalg and stats modules",
-        text="Decides the addressing discipline behind relabelling invariance: a label is never used as a position in a positional container nor a position as a label in an ID-keyed map, every matrix builder numbers its rows/columns in view order (callers use matrices without their index maps), positionally paired sequences have the same order provenance, and tuples out of combination-style enumerations are made canonical before they serve as identities. Numerical invariance itself is not decided.",
+        text="Decides the addressing discipline behind relabelling invariance: a label is never used as a position in a positional container nor a position as a label in an ID-keyed map, every matrix builder numbers its rows/columns in view order (callers use matrices without their index maps), positionally paired sequences have the same order provenance, tuples out of combination-style enumerations are made canonical before they serve as identities, and pairs drawn with combinations() from a member set are not recorded with an orientation (K-PAIR). Numerical invariance itself is not decided.",
         ref="3 C09",
     ),
     "C10": dict(
-        technique="static analysis: writer/reader key-table extraction and comparison, sibling-branch footprint cross-check, role-by-test and arc-orientation rules, forward taint from NumPy arrays to ID sinks, provenance resolution of IDs through helpers, dead-parameter liveness analysis",
-        text="Narrow: decides that the dict-format writers and readers agree on keys and enumerations (incl. direction literals), that all class-to-class converter branches transfer nodes, edges and network attributes, that bipartite endpoints are classified by a test, not by position, and that the direction of every membership read from a DiGraph is taken from the orientation of the arc being enumerated (the writer uses the opposite convention consistently), that no label reaches a network-building call or a returned table after a detour through a NumPy array built from the labels, and that every parameter of every converter can influence its result (dead-parameter analysis). Round-trip equality of values is NOT decided.",
+        technique="static analysis: writer/reader key-table extraction and comparison, sibling-branch footprint cross-check, role-by-test and arc-orientation rules, forward taint from NumPy arrays to ID sinks, provenance resolution of IDs through helpers, dead-parameter liveness analysis, key-domain analysis of regrouping maps",
+        text="Narrow: decides that the dict-format writers and readers agree on keys and enumerations (incl. direction literals), that all class-to-class converter branches transfer nodes, edges and network attributes, that bipartite endpoints are classified by a test, not by position, and that the direction of every membership read from a DiGraph is taken from the orientation of the arc being enumerated (the writer uses the opposite convention consistently), that no label reaches a network-building call or a returned table after a detour through a NumPy array built from the labels, that every parameter of every converter can influence its result (dead-parameter analysis), and that sibling maps filled under different conditions are read over the union of their keys (T-DOM). Round-trip equality of values is NOT decided.",
         ref="3 C10",
     ),
     "C11": dict(
         technique="static analysis: delegation/forwarding checks on every reader/writer, delimiter symmetry, array-rank fact propagation, serialise-before-open and write-after-serialise dominance on the CFG, provenance resolution of parsed fields, memo-key completeness, writer/reader mode agreement, dead-parameter liveness analysis",
-        text="Narrow: decides that each read_*/write_* pair goes through the paired converters, forwards every parameter, joins and splits on the received delimiter (which is never rebound), forces text matrices two-dimensional, serialises before opening the file, casts node and edge fields of the text parsers with their own type from their own column (followed through helpers), keys any conversion memo by everything the stored value depends on, opens text formats in the same mode family on both sides, writes every serialised record and every member of a collection, stores the literal the reader dispatches on, and keeps every parameter of every reader/writer live. Round-trip equality of values is NOT decided.",
+        text="Narrow: decides that each read_*/write_* pair goes through the paired converters, forwards every parameter, joins and splits on the received delimiter (which is never rebound), forces text matrices two-dimensional, serialises before opening the file, casts node and edge fields of the text parsers with their own type from their own column (followed through helpers), keys any conversion memo by everything the stored value depends on, opens text formats in the same mode family on both sides, writes every serialised record and every member of a collection to the file whose relative path it records (followed through os.path.join and name-building helpers; the dataset name reaches the file name without a lossy transformation), stores the literal the reader dispatches on, and keeps every parameter of every reader/writer live. Round-trip equality of values is NOT decided.",
         ref="3 C11",
     ),
     "C12": dict(
         technique="static analysis: ID/position kind inference on matrix builders, index-map provenance (view-order placement), definite assignment in degenerate branches, sparse/dense sibling dtype agreement, filtering-history signatures of zipped sequences, dead-parameter liveness analysis",
-        text="Narrow: decides that rows/columns are addressed through index maps (never labels), that returned maps derive from the map that placed the entries and that this map numbers a view in view order, that degenerate-shape branches assign their result on every path, that the sparse and dense constructions of one builder use the same element type, that stored weights are never replaced by a default through truthiness, that sequences consumed pairwise were filtered identically, and that every parameter of every builder is live. Numerical equality with textbook definitions is NOT decided.",
+        text="Narrow: decides that rows/columns are addressed through index maps (never labels), that returned maps derive from the map that placed the entries and that this map numbers a view in view order, that degenerate-shape branches assign their result on every path, that the sparse and dense constructions of one builder use the same element type, that stored weights are never replaced by a default through truthiness, that sequences consumed pairwise were filtered identically, that the adjacency tensor is populated idempotently (repeated edges do not add up), and that every parameter of every builder is live. Numerical equality with textbook definitions is NOT decided.",
         ref="3 C12",
     ),
     "C13": dict(
-        technique="static analysis: abstract interpretation of the boundary sign exponent in the parity domain, face-loop shape checks",
-        text="Narrow: decides that the sign exponent stored by boundary_matrix has the textbook parity (up to an order-only sign), that the reference orientation is fixed before faces are enumerated, that every face of the combinations enumeration is stored and looked up by member set and addressed by its simplex ID (kind inference), that _subfaces enumerates the simplex in the order it is given, and that hodge_laplacian composes boundary matrices built with the same orientations. The identity on concrete complexes is NOT decided.",
+        technique="static analysis: abstract interpretation of the boundary sign exponent in the parity domain, face-loop shape checks, per-path symbolic evaluation of the Hodge composition",
+        text="Narrow: decides that the sign exponent stored by boundary_matrix has the textbook parity (up to an order-only sign), that the reference orientation is fixed before faces are enumerated, that every face of the combinations enumeration is stored and looked up by member set and addressed by its simplex ID (kind inference), that _subfaces enumerates the simplex in the order it is given, and that hodge_laplacian, evaluated symbolically on every path to a return, is B_k^T B_k + B_{k+1} B_{k+1}^T of boundary matrices built with the same orientations (the upper term absent only where there are no (k+1)-simplices; a literal-shaped matrix returned only where there are no nodes). The identity on concrete complexes is NOT decided.",
         ref="3 C13",
     ),
     "C16": dict(
-        technique="static analysis: member-shape kind rule at every edge-adding call in generators, must-reach add_nodes_from, skip-loop bound agreement, mixed-radix decoder extraction, alignment of pairwise-consumed sequences, dead-parameter liveness analysis",
-        text="Narrow: decides that every generator hands add_edge/add_edges_from iterables of node IDs (never nested lists), adds the requested node set on every path, that skip-sampling loop bounds agree with their decoder's domain, that p in {0,1} branches are present or handled, that sequences consumed pairwise (orders and probabilities) are never reordered one without the other, and that every parameter of every generator is live. Edge counts and distributions are NOT decided.",
+        technique="static analysis: member-shape kind rule at every edge-adding call in generators, must-reach add_nodes_from, skip-loop bound agreement, mixed-radix decoder extraction, alignment of pairwise-consumed sequences, taint from with-repetition enumerations to edge-adding calls, dead-parameter liveness analysis",
+        text="Narrow: decides that every generator hands add_edge/add_edges_from iterables of node IDs (never nested lists), adds the requested node set on every path, that skip-sampling loop bounds agree with their decoder's domain, that p in {0,1} branches are present or handled, that sequences consumed pairwise (orders and probabilities) are never reordered one without the other, that candidates enumerated with repetition (Cartesian products of node groups, product index decoders) reach an edge-adding call only under a test on their number of distinct nodes, and that every parameter of every generator is live. Edge counts and distributions are NOT decided.",
         ref="3 C16",
     ),
     "C17": dict(
@@ -101,8 +101,8 @@ CLAIMS = {
         ref="3 C19",
     ),
     "C20": dict(
-        technique="static analysis: ID/position kind inference over layout and drawing code, key provenance of layout dicts, guarded-range-division lint, step order on the CFG of draw_simplices, canonical-identity lint for faces, dead-parameter liveness analysis",
-        text="Narrow: decides that positions are addressed by label and arrays by position in the layout/drawing functions the property names, that every layout's keys come from the node view (edge positions from the edge view; dicts filled in loops are checked store by store), that a rescaling that divides by a max-min range handles the constant input, that draw_simplices cuts to max_order before taking maximal simplices, that faces are never de-duplicated by raw combination tuples, and that every parameter of every layout is live. Rendered geometry is NOT decided.",
+        technique="static analysis: ID/position kind inference over layout and drawing code, key provenance of layout dicts, guarded-range-division lint, step order on the CFG of draw_simplices, canonical-identity lint for faces, hull-mode reaching definitions of polygon vertices, structural-parameter forwarding between draw functions, dead-parameter liveness analysis",
+        text="Narrow: decides that positions are addressed by label and arrays by position in the layout/drawing functions the property names, that every layout's keys come from the node view (edge positions from the edge view; dicts filled in loops are checked store by store), that a rescaling that divides by a max-min range handles the constant input, that draw_simplices cuts to max_order before taking maximal simplices, that faces are never de-duplicated by raw combination tuples, that outside hull mode a polygon's vertex array is not selected through a convex hull, that draw functions pass pos/ax/max_order/hull/radius on to the sibling draw functions they delegate to, and that every parameter of every layout is live. Rendered geometry is NOT decided.",
         ref="3 C20",
     ),
 }
